@@ -458,6 +458,7 @@ impl<'p> Evaluator<'_, 'p> {
         } else {
             0
         };
+        let mut left = code.cflags.left;
         let fw = if code.fw.is_some() {
             let fw = self.value_stack.pop().unwrap();
             let ValueData::Number(fw) = fw else {
@@ -469,7 +470,12 @@ impl<'p> Evaluator<'_, 'p> {
                     ),
                 }));
             };
-            float::try_to_u32(fw)
+            // As in C and Python, a negative width given through `*` is
+            // the `-` flag followed by a positive width.
+            if fw < 0.0 {
+                left = true;
+            }
+            float::try_to_u32(fw.abs())
                 .filter(|&v| usize::try_from(v).is_ok())
                 .ok_or_else(|| {
                     self.report_error(EvalErrorKind::Other {
@@ -501,6 +507,7 @@ impl<'p> Evaluator<'_, 'p> {
             part_i,
             array_i,
             fw,
+            left,
         });
 
         if code.ctype == ConvType::Percent {
@@ -510,6 +517,7 @@ impl<'p> Evaluator<'_, 'p> {
                 parts,
                 part_i,
                 fw,
+                left,
                 prec,
             });
             self.state_stack.push(State::DoThunk(item.unwrap()));
@@ -525,11 +533,8 @@ impl<'p> Evaluator<'_, 'p> {
         part_i: usize,
         array_i: usize,
         fw: u32,
+        left: bool,
     ) -> Result<(), EvalError> {
-        let FormatPart::Code(ref code) = parts[part_i] else {
-            unreachable!();
-        };
-
         let s = self.string_stack.pop().unwrap();
         let result = self.string_stack.last_mut().unwrap();
 
@@ -537,7 +542,7 @@ impl<'p> Evaluator<'_, 'p> {
         let s_len = s.chars().count();
         if s_len < fw {
             let pad_len = fw - s_len;
-            if code.cflags.left {
+            if left {
                 result.push_str(&s);
                 result.extend(std::iter::repeat_n(' ', pad_len));
             } else {
@@ -650,10 +655,12 @@ impl<'p> Evaluator<'_, 'p> {
                 if code.ctype == ConvType::Percent {
                     self.string_stack.push("%".into());
                 } else {
+                    let left = code.cflags.left;
                     self.state_stack.push(State::StdFormatCode {
                         parts,
                         part_i,
                         fw,
+                        left,
                         prec,
                     });
                     self.state_stack.push(State::DoThunk(item.unwrap()));
@@ -707,6 +714,7 @@ impl<'p> Evaluator<'_, 'p> {
         parts: &[FormatPart],
         part_i: usize,
         fw: u32,
+        left: bool,
         prec: u32,
     ) -> EvalResult<()> {
         let FormatPart::Code(ref code) = parts[part_i] else {
@@ -723,7 +731,7 @@ impl<'p> Evaluator<'_, 'p> {
         } else {
             0
         };
-        let zp = if code.cflags.zero && !code.cflags.left {
+        let zp = if code.cflags.zero && !left {
             fw as usize
         } else {
             0
